@@ -476,6 +476,14 @@ def apply(an, st, t, args, dkey, dty, sid):
         if lt is not None and lt[0] == "s":
             st.diffs[(psid, lt[1])] = lt[2]
         return HANDLED
+    # ---- Enumerate over an in-memory sequence: the index is below the element count, which is at most isize::MAX ---------------
+    if m(r"^<std::iter::Enumerate<I> as std::iter::Iterator>::next$") and t.get("arg_tys") and \
+            re.search(r"Enumerate<(std::slice::(Iter|IterMut|Chunks|ChunksExact|ChunksMut|Windows)<|std::vec::IntoIter<|std::str::(Chars|Bytes|CharIndices|Split)<|smallvec::|std::collections::)", t["arg_tys"][0]):
+        st.kill_prefix(dkey)
+        isid = sid + "#idx"
+        st.syms[isid] = (0, (1 << 63) - 2)
+        st.vals["(%s as Some).0.0" % dkey] = V(ty="usize", sym=(isid, 0))
+        return HANDLED
     # ---- slice::binary_search*: Ok(i) => i < len, Err(i) => i <= len (the closure argument only compares) -------------------------
     if m(r"core::slice::<impl \[T\]>::binary_search(_by|_by_key)?$"):
         st.kill_prefix(dkey)
